@@ -14,7 +14,7 @@ res = {}
 try:
     for pid in ids:
         t0 = time.time()
-        p = subprocess.run(["/verif/check", pid, tier], capture_output=True, text=True)
+        p = subprocess.run([os.environ.get("VERIF_CHECK", "/verif/check"), pid, tier], capture_output=True, text=True)
         viol = [l for l in p.stdout.splitlines() if l.startswith("VIOLATION")]
         mach = [l for l in p.stdout.splitlines() if l.startswith("MACHINERY")]
         classes = sorted({os.path.basename(l.split("replay=")[1]).rsplit("-", 1)[0] for l in viol if "replay=" in l})
@@ -22,7 +22,7 @@ try:
         print(pid, p.returncode, classes, mach[:1], flush=True)
 finally:
     subprocess.run(["git", "-C", "/repo", "checkout", "--", "."])
-out = os.path.join(d, f"{v}.trial.{tier}.json")
+out = os.path.join(d, f"{v}.trial.{tier}{os.environ.get('TRIAL_TAG', '')}.json")
 if os.path.exists(out):
     old = json.load(open(out))
     old.update(res)
